@@ -161,8 +161,10 @@ type model struct {
 
 type planStats struct {
 	rollbacks, caughtAtCaller, caughtAtAncestor, callbackThrows, nativeOps, nativeRolledBack, calls, maxDepth int
-	reentrantOpenTry, tryEndedBeforeCall, callFromFinally, grandCallerOnly                                    bool
-	ops                                                                                                       [nOps]int
+	// calls whose effective flags allow notifications but no storage writes
+	notifyOnlyCalls, notifyOnlyCaughtAtCaller, notifyOnlyCaughtAtAncestor, notifyOnlyNotesRolledBack, notifyOnlyNested int
+	reentrantOpenTry, tryEndedBeforeCall, callFromFinally, grandCallerOnly                                             bool
+	ops                                                                                                                [nOps]int
 }
 
 func newModel(slots int) *model {
@@ -304,8 +306,16 @@ func (m *model) run(cur, flags int, plan []step, hasTry bool, depth int) (result
 				}
 			}
 			s := m.snap()
+			eff := flags & p.F
+			notifyOnly := eff&fAllowNotify != 0 && eff&fWriteStates == 0
+			if m.stats != nil && notifyOnly {
+				m.stats.notifyOnlyCalls++
+				if flags != fAll {
+					m.stats.notifyOnlyNested++ // made by a caller that itself runs with reduced flags
+				}
+			}
 			m.active[p.C]++
-			r, sub := m.run(p.C, flags&p.F, p.Sub, false, depth+1)
+			r, sub := m.run(p.C, eff, p.Sub, false, depth+1)
 			m.active[p.C]--
 			switch r {
 			case rAbort, rUnmodelled:
@@ -314,12 +324,23 @@ func (m *model) run(cur, flags int, plan []step, hasTry bool, depth int) (result
 				m.hops++
 				own := p.Op == opTryCall || (cur == rootSlot && wrapperCatches(p.W))
 				if own || hasTry {
+					dropped := len(m.notes) - s.nnotes
 					m.restore(s)
 					if m.stats != nil {
 						if own {
 							m.stats.caughtAtCaller++
 						} else {
 							m.stats.caughtAtAncestor++
+						}
+						if notifyOnly {
+							if own {
+								m.stats.notifyOnlyCaughtAtCaller++
+							} else {
+								m.stats.notifyOnlyCaughtAtAncestor++
+							}
+							if dropped > 0 {
+								m.stats.notifyOnlyNotesRolledBack++
+							}
 						}
 						if m.hops >= 2 {
 							m.stats.grandCallerOnly = true
@@ -509,7 +530,11 @@ type genCfg struct {
 
 var (
 	planKeys = []string{"a", "b", "ab", "k1", "k2"}
-	flagSets = []int{fAll, fAll, fAll, fAll, fAll, fAll, fAll, fAll, fAll, fAll, fAll, fAll, fAll, fAll, fAll, fAll, fAll, fAll, fAll &^ fAllowNotify, fReadStates | fAllowCall, fReadStates | fWriteStates | fAllowCall, fReadStates | fAllowCall | fAllowNotify, fReadStates | fWriteStates, 0}
+	// every subset that still allows the notify without allowing writes appears often
+	notifyOnlyFlags = []int{fAllowNotify, fReadStates | fAllowNotify, fAllowCall | fAllowNotify, fReadStates | fAllowCall | fAllowNotify}
+	flagSets        = []int{fAll, fAll, fAll, fAll, fAll, fAll, fAll, fAll, fAll, fAll, fAll, fAll, fAll, fAll,
+		fAllowNotify, fReadStates | fAllowNotify, fAllowCall | fAllowNotify, fReadStates | fAllowCall | fAllowNotify, fAllowNotify, fReadStates | fAllowNotify, fAllowCall | fAllowNotify, fReadStates | fAllowCall | fAllowNotify, fReadStates | fAllowCall | fAllowNotify,
+		fAll &^ fAllowNotify, fReadStates | fAllowCall, fReadStates | fWriteStates | fAllowCall, fReadStates | fAllowCall | fAllowNotify, fReadStates | fWriteStates, 0}
 )
 
 type gen struct {
@@ -543,6 +568,9 @@ func (g *gen) body(cur, flags, depth int, inCallback bool) []step {
 		if r.Intn(8) != 0 {
 			// mostly avoid what the call flags forbid (it faults the transaction)
 			if x < 28 && (flags&fWriteStates == 0 || flags&fReadStates == 0) {
+				if flags&fAllowNotify != 0 {
+					out = append(out, step{Op: opNotify, N: r.Intn(1000)})
+				}
 				continue
 			}
 			if x >= 28 && x < 40 && flags&fAllowNotify == 0 {
@@ -597,6 +625,10 @@ func (g *gen) body(cur, flags, depth int, inCallback bool) []step {
 				}
 			}
 		}
+	}
+	if flags&fAllowNotify != 0 && flags&fWriteStates == 0 && depth < g.cfg.maxDepth-1 && r.Intn(3) == 0 {
+		// a callee that can only notify: notify, then throw
+		out = append(out, step{Op: opNotify, N: r.Intn(1000)}, step{Op: opThrow})
 	}
 	return out
 }
@@ -813,6 +845,42 @@ func (g *gen) shaped(kind int) []step {
 		if r.Intn(2) == 0 {
 			top = append(top, step{Op: opTryCall, C: child, F: fAll, Sub: []step{put()}})
 		}
+	case 7: // callees that may notify but not write throw after notifying; caught by the caller / an enclosing frame
+		nf := func() int { return notifyOnlyFlags[r.Intn(len(notifyOnlyFlags))] }
+		failing := func(c, f int, deeper bool) step {
+			sub := []step{ntf(), ntf()}
+			if deeper && f&fReadStates != 0 && f&fAllowCall != 0 {
+				// deeper calls that themselves use reduced flags
+				d := r.Intn(b)
+				switch r.Intn(3) {
+				case 0: // the deeper callee fails, the middle one catches it and goes on
+					sub = append(sub, step{Op: opTryCall, C: d, F: nf(), Sub: []step{ntf(), ntf(), thr}}, ntf())
+				case 1: // the deeper callee succeeds, then the middle one throws
+					sub = append(sub, step{Op: opCall, C: d, F: nf(), Sub: []step{ntf(), ntf()}}, ntf())
+				default: // the deeper callee's exception passes through the middle one
+					sub = append(sub, step{Op: opCall, C: d, F: nf(), Sub: []step{ntf(), thr}})
+				}
+			}
+			sub = append(sub, thr)
+			return step{Op: opCall, C: c, F: f, Sub: sub}
+		}
+		t1 := failing(c2, nf(), true)
+		t1.Op = opTryCall
+		t2 := failing(c3, nf(), r.Intn(2) == 0)
+		t3 := failing(c2, nf(), false)
+		t3.Op = opFinCall
+		top = []step{ntf(), t1, ntf(), {Op: opLocalTry, Sub: []step{ntf(), t2, ntf()}}, ntf()}
+		switch r.Intn(4) {
+		case 0:
+			top = append(top, step{Op: opLocalTry, Sub: []step{ntf(), t3}}, put())
+		case 1:
+			// the same under a caller that already runs with reduced flags
+			top = []step{ntf(), {Op: opCall, C: c3, F: fReadStates | fAllowCall | fAllowNotify, Sub: top}, put()}
+		case 2:
+			ok := failing(c3, nf(), false)
+			ok.Op, ok.Sub = opTryCall, ok.Sub[:len(ok.Sub)-1] // notifies and returns: kept
+			top = append(top, ok, ntf())
+		}
 	}
 	// random surroundings
 	if r.Intn(2) == 0 {
@@ -825,4 +893,4 @@ func (g *gen) shaped(kind int) []step {
 	return []step{{Op: opCall, C: a, F: fAll, W: w, Sub: top}}
 }
 
-const nShapes = 7
+const nShapes = 8
